@@ -345,7 +345,19 @@ func (doc *T) derefSchema(s *Schema, refNameResolver RefNameResolver, parentIsEx
 
 	for _, list := range []SchemaRefs{s.AllOf, s.AnyOf, s.OneOf} {
 		for _, s2 := range list {
+			oldRef := ""
+			if s2 != nil {
+				oldRef = s2.Ref
+			}
 			isExternal := doc.addSchemaToSpec(s2, refNameResolver, parentIsExternal)
+			if s2 != nil && s2.Ref != oldRef && s.Discriminator != nil {
+				// a discriminator mapping names its schema by the member's reference: it follows the member
+				for value, ref := range s.Discriminator.Mapping {
+					if ref == oldRef {
+						s.Discriminator.Mapping[value] = s2.Ref
+					}
+				}
+			}
 			if s2 != nil {
 				doc.derefSchema(s2.Value, refNameResolver, isExternal || parentIsExternal)
 			}
